@@ -39,6 +39,7 @@ def families(tier):
         ("D", lambda: enum2d.D(4 if q else 5), 1),
         ("Lad", lambda: ({**enum2d.ladder(K, gap=g), "ladder": K} for K in range(1, 9) for g in (0, 1, 2)), 1),
         ("M-exotic-letters", lambda: (enum2d.exotic(c) for c in enum2d.M(7, nmin=2)), 1),
+        ("after-derivations", lambda: ({**c, "pre": True} for c in enum2d.M(8 if q else 9, nmin=3)), 1),
         # positions with four and five digits (two or three crossing stems far apart) and many small groups of crossing stems (up to 14 stems in knots)
         ("long-chains", lambda: (c for c in __import__("mc.props.c02", fromlist=["x"])._long_chains(tier) if c["long"] <= 12000), 1),
         ("many-groups", lambda: __import__("mc.props.c16", fromlist=["x"])._many_groups(), 1),
@@ -181,8 +182,16 @@ def run_case(case):
     b = call("from_string", build, out, case)
     if b is None:
         return dict(nontrivial=True, outcome="build-failed", violations=out)
+    if case.get("pre"):
+        # the elements asked AFTER the derivations and the other notations of the same object (they are an answer about the object as it was built)
+        call("pre:without_isolated", b.without_isolated, out)
+        call("pre:without_pseudoknots", b.without_pseudoknots, out)
+        call("pre:fcfs", lambda: b.fcfs, out)
+        n_pre = len(out)
     el = call("elements", lambda: b.elements, out)
     d = call("dot_bracket", lambda: b.dot_bracket, out)
+    if case.get("pre") and str(b) != enum2d.bpseq_text(case):
+        out.append(viol("elements:receiver-changed-by-derivation", "the BPSEQ text of the object changed when its derivations were asked for", str(b), enum2d.bpseq_text(case)))
     if el is None or d is None:
         return dict(nontrivial=True, outcome="exc", violations=out)
     tup = elements_as_tuples(el)
